@@ -91,6 +91,24 @@ Theorem wf_check_soundness_links : forall d, wf_check d = [] -> WFLinks d.
 Proof. exact wf_check_sound_links. Qed.
 Print Assumptions wf_check_soundness_links.
 
+(* ... and for the ordering clauses (Topo/WFOrder.v): normal children ordered by the first index of their complete
+   cpuset with the empty ones last; memory children with non-empty complete nodesets of strictly increasing first index *)
+From HV Require Import Topo.WFOrder.
+Theorem wf_check_soundness_order : forall d, wf_check d = [] -> WFOrder d.
+Proof. exact wf_check_sound_order. Qed.
+Print Assumptions wf_check_soundness_order.
+
+Example children_order_example :
+  ordered_first [bs_union (bs_single 0) (bs_single 2); bs_single 1; bs_empty] (-1)%Z false = true /\
+  ChildrenOrdered [bs_union (bs_single 0) (bs_single 2); bs_single 1; bs_empty] /\
+  ordered_first [bs_single 1; bs_single 0] (-1)%Z false = false /\
+  ordered_first [bs_empty; bs_single 0] (-1)%Z false = false.
+Proof.
+  assert (H : ordered_first [bs_union (bs_single 0) (bs_single 2); bs_single 1; bs_empty] (-1)%Z false = true)
+    by (vm_compute; reflexivity).
+  split; [exact H|]. split; [exact (proj2 (proj2 (ordered_first_spec _ _ _ H)))|]. split; vm_compute; reflexivity.
+Qed.
+
 (* Non-vacuity: the smallest legal topology (Machine > PU, one NUMA node
    attached to the Machine) passes the checker, hence satisfies WF. *)
 Definition ex_set1 : option bset := Some (bs_single 0).
